@@ -130,14 +130,21 @@ def d1_decimals(ctx, obs):
                 want = -F + S - 1
             elif isinstance(v, ast.JoinedStr):
                 fv = [x for x in v.values if isinstance(x, ast.FormattedValue)]
-                if len(fv) != 2 or unparse(fv[0].value) != val or unparse(fv[1].value) != dval:
+                if len(fv) != 2 or unparse(fv[0].value) != val:
                     raise Unrecognised('f-string %s' % unparse(v))
                 lits = [x.value for x in v.values if isinstance(x, ast.Constant)]
                 if lits != ['(', ')']:
                     raise Unrecognised('f-string literals %s' % lits)
                 Dv = spec_decimals(obs, fv[0].format_spec, env)
-                De = spec_decimals(obs, fv[1].format_spec, env)
-                want = S - 1 if branch == 'fexp=0' else sp.Max(0, S - F - 1)
+                e = fv[1].value
+                if unparse(e) == dval:
+                    De = spec_decimals(obs, fv[1].format_spec, env)
+                elif isinstance(e, ast.BinOp) and isinstance(e.op, ast.Mult) and unparse(e.left) == dval and isinstance(e.right, ast.BinOp) and isinstance(e.right.op, ast.Pow) and const(e.right.left) == 10:
+                    # scaled error mantissa printed with k decimals: the error is printed to E + k decimal places
+                    De = tr_int(obs, e.right.right, env) + spec_decimals(obs, fv[1].format_spec, env)
+                else:
+                    raise Unrecognised('f-string %s' % unparse(v))
+                want = -F + S - 1 if branch == 'fexp<0' else (S - 1 if branch == 'fexp=0' else sp.Max(0, S - F - 1))
             else:
                 raise Unrecognised('return %s' % unparse(v))
         except Unrecognised as ex:
@@ -215,6 +222,12 @@ def d3_flags(ctx, obs):
     ctx.check(rule, 'obs.py:CObs.__format__', ok, 'complex observables format real and imaginary part', 'returns %s' % [unparse(x.value) for x in r])
 
 
+def mod_stmt(mod, node):
+    while node is not None and not isinstance(node, ast.stmt):
+        node = mod.parents.get(node)
+    return node
+
+
 def d4_views(ctx, obs):
     rule = 'C19-D4'
     ops = {'__lt__': ast.Lt, '__le__': ast.LtE, '__gt__': ast.Gt, '__ge__': ast.GtE}
@@ -282,12 +295,30 @@ def d4_views(ctx, obs):
     cm = ctx.repo.mod('correlators')
     f = cm.func('Corr.plottable')
     xs, ys, es = find_def(f, 'x_list'), find_def(f, 'y_list'), find_def(f, 'y_err_list')
-    if len(xs) == len(ys) == len(es) == 1:
+    if len(xs) == len(ys) == len(es) == 1 and all(isinstance(d_[0].value, ast.ListComp) for d_ in (xs, ys, es)):
         ok = unparse(xs[0].value) == '[x for x in range(self.T) if self.content[x] is not None]' and unparse(ys[0].value) == '[y[0].value for y in self.content if y is not None]' \
             and unparse(es[0].value) == '[y[0].dvalue for y in self.content if y is not None]'
         ctx.check(rule, 'correlators.py:Corr.plottable', ok, 'x, value and error lists use one and the same defined-slice filter and .value/.dvalue', 'lists: %s / %s / %s' % (unparse(xs[0].value), unparse(ys[0].value), unparse(es[0].value)))
     else:
-        ctx.unrec(rule, 'correlators.py:Corr.plottable', 'lists not found')
+        # the same three lists filled by one loop: all three appends under one and the same guard
+        lp = [s_ for s_ in statements(f) if isinstance(s_, ast.For) and unparse(s_.iter) in ('enumerate(self.content)', 'range(self.T)')]
+        okl = False
+        detail = 'lists not found'
+        if len(lp) == 1:
+            aps = [c for c in walk(lp[0]) if isinstance(c, ast.Call) and isinstance(c.func, ast.Attribute) and c.func.attr == 'append' and unparse(c.func.value) in ('x_list', 'y_list', 'y_err_list')]
+            gs = {tuple((unparse(t), pol) for t, pol in guards_of(cm, mod_stmt(cm, c), stop=lp[0])) for c in aps}
+            vals = {unparse(c.func.value): unparse(c.args[0]) for c in aps}
+            if unparse(lp[0].iter) == 'enumerate(self.content)' and isinstance(lp[0].target, ast.Tuple):
+                xi, yi = [unparse(e) for e in lp[0].target.elts]
+                want = {'x_list': xi, 'y_list': '%s[0].value' % yi, 'y_err_list': '%s[0].dvalue' % yi}
+                gwant = {((('%s is not None' % yi), True),)}
+            else:
+                xi = unparse(lp[0].target)
+                want = {'x_list': xi, 'y_list': 'self.content[%s][0].value' % xi, 'y_err_list': 'self.content[%s][0].dvalue' % xi}
+                gwant = {((('self.content[%s] is not None' % xi), True),)}
+            okl = len(aps) == 3 and vals == want and gs == gwant
+            detail = 'loop fills %s under %s' % (vals, sorted(gs))
+        ctx.check(rule, 'correlators.py:Corr.plottable', okl, 'x, value and error lists are filled in one pass under one and the same defined-slice filter', detail)
     pv = [n for n, node in obs.methods('Obs') if n in ('value', 'dvalue')]
     for nm in ('value', 'dvalue'):
         q = 'Obs.' + nm
